@@ -11,7 +11,7 @@ SPEC = {
              'the cycle time in effect at acceptance; sources and sinks likewise; at every clock advance no due '
              'cycle may still be running; a case is one model; non-trivial = a cycle was interrupted by a '
              'shutdown and later completed; also: the configured cycle time tracked independently of the library, -inf one-shot offsets, planned stops refused by a callback, finish / shutdown / restored callbacks that fail once under a catching caller, long-history models'),
-    'floors': {'quick': {'cycles_completed': 3000, 'cycles_completed_after_interruption': 100,
+    'floors': {'quick': {'cycles_completed': 3000, 'cycles_completed_after_interruption': 40,
                          'cycles_ended_by_failure': 30, 'source_cycles_checked': 2000},
                'thorough': {'cycles_completed': 60000, 'cycles_completed_after_interruption': 2000,
                             'cycles_ended_by_failure': 600, 'source_cycles_checked': 40000}},
